@@ -46,7 +46,7 @@ FsActs == {"node-file-create", "node-file-delete", "node-file-restore", "node-fi
            "node-folder-restore", "node-folder-checkhash", "node-folder-create"}
 Acts == PowerActs \cup (CASE Facet = "svc" -> SvcActs [] Facet = "app" -> AppActs [] OTHER -> FsActs)
 
-InitOp == CASE Facet = "svc" -> "RUNNING" [] Facet = "app" -> "RUNNING" [] OTHER -> "PRESENT"
+InitOp == CASE Facet = "svc" -> "RUNNING" [] Facet = "app" -> "RUNNING" [] OTHER -> "ABSENT"
 
 Init == /\ pw = "ON" /\ pc = 0 /\ rs = FALSE
         /\ op = InitOp /\ oc = 0 /\ hs = "GOOD" /\ fc = 0 /\ act = "init"
